@@ -2,6 +2,7 @@ _COMMON_TB = [
     'Coq 8.16.1 kernel incl. vm_compute (no native_compute); std++ 1.8.0 gmap/gset',
     'axioms: none (Print Assumptions: closed under the global context)',
     'correspondence harness harness/stakestates.go (script interpreter over the real keepers, two-fork runner, full store diff) + '
+    'harness/stakequery.go (questions through the EVM and through the gRPC query router, ABI-shaped field-by-field comparison) + '
     'harness/evmexec.go + harness/asm.go (hand-assembled generic script contract, call-tree '
     'encoder, tracer that records which frames failed, reference accounting, metamorphic oracle) + vlib/core.py',
     'modelled, not verified: go-ethereum interpreter (only CALL/SSTORE/LOG/BALANCE/REVERT/SELFDESTRUCT/CREATE of the script contract are used; constructors run scripts through a DELEGATECALL into a library copy of the interpreter), '
@@ -17,10 +18,12 @@ P = {
         {'name': 'evmexec', 'n': {'quick': 500, 'thorough': 20000}, 'args': {'prop': 'C16'}, 'batch': 5000},
         {'name': 'evmquery', 'n': {'quick': 150, 'thorough': 5000}, 'batch': 5000},
         {'name': 'stakestates', 'n': {'quick': 1500, 'thorough': 40000}, 'batch': 5000, 'shrink_field': 'script'},
+        {'name': 'stakequery', 'n': {'quick': 400, 'thorough': 10000}, 'batch': 4000, 'shrink_field': 'script'},
     ],
     'coq_header': 'From HV Require Import Staking.StakeModel.\nFrom HV Require Import Evm.ExecModel.\nFrom Coq Require Import ZArith NArith List.\nImport ListNotations.',
     'lists': {'cases': {'type': 'ecase * list Z * eobs', 'check': 'mismatches', 'shard': 50},
-              'stake': {'type': 'scase', 'check': 'stake_mismatches', 'shard': 400}},
+              'stake': {'type': 'scase', 'check': 'stake_mismatches', 'shard': 400},
+              'squery': {'type': 'qcase', 'check': 'query_mismatches', 'shard': 150}},
     'search': {'rounds': 3, 'n': 2000},
     'rule': 'a case is a random setup (balances, delegations, allocated rewards, withdraw addresses, staking and ICS-20 transfer grants of the signer) '
             'plus one Ethereum transaction: either EOA -> staking/distribution/ICS-20 precompile or EOA -> script contract running a '
@@ -35,15 +38,33 @@ P = {
             'whole delegation +-1, whole balance +1, entry balance +1, 2^256-1) is run by the signer on two forks of that state: as an '
             'Ethereum transaction through EvmKeeper.ApplyTransaction and as the native message(s) through the message router; the oracle '
             'compares success/failure and a full key/value diff of every persistent store except the EVM module\'s own (signer '
-            'sequence masked); non-trivial = both routes succeeded',
+            'sequence masked); non-trivial = both routes succeeded.  stakequery: a case is (script, questions): the script (the same '
+            'operations; generator: two to six delegations of several delegators with odd amounts (dust, 10^18 + a little, arbitrary '
+            '18-digit numbers) on one to three validators, one to three slashes by assorted fractions (1 bp .. 100 %, 5 %, 33.33 %) with '
+            'unbondings, redelegations, rewards and further delegations in between and afterwards, jailed / unbonding / unbonded '
+            'validators, matured entries; a third of the cases take the stakestates scenarios) builds the state; every question is '
+            'asked as an Ethereum call of the staking precompile (ApplyMessage) and as the native gRPC query through the '
+            'application\'s GRPCQueryRouter: delegation and unbondingDelegation for every account (six actors, a stranger) x every '
+            'validator (three, an address without a record, a malformed string), validator for each, validators by status with '
+            'limit / offset / reverse / count-total and followed next keys, redelegation and redelegations for every (delegator, '
+            'source, destination), by delegator and by source validator with paging (181 questions per state, plus random paging '
+            'questions); the oracle: where the native query answers, the call succeeds and every field is equal (shares and '
+            'commission as 10^18-scaled integers, balances, denomination, addresses, consensus key, status, jailed, heights, '
+            'completion / unbonding times, unbonding ids, entry order, next key, total); where it says not-found the precompile '
+            'fails or reports the empty answer; other native errors demand nothing; non-trivial = some native query answered; '
+            'distribution tags say whether a reported delegation is worth a whole number of tokens or a fraction below / from one half',
     'trusted_base': _COMMON_TB,
     'assumptions': ['gas price 0, so no fee enters the balance equations',
                     'evmexec / evmquery: one validator, no slashing (tokens = shares); stakestates: three validators, slashing, jailing, '
                     'unbonding, emptied validators, full entry lists',
                     'stakestates: the auth accounts of the precompile addresses exist (as after any earlier call on a live chain); the block '
                     'proposer is a bonded validator; ante handler not run on either route (no fee, no sequence increment)',
-                    'Staking/StakeModel.v does not model the 315-bit LegacyDec overflow panic (compared on amounts up to 2^256-1)'],
-    'level_text': 'Coq theorem: for every method, argument and state the Cosmos-side effect and success/failure of an owner call equal the native message (before the final StateDB commit); refutation witness K6 for the whole-transaction statement. Every run executes, on forks of the same state, the precompile transaction and the native message through the real message router and diffs balances, delegations, unbondings, rewards, withdraw addresses, grants; the model is compared with the implementation on the same cases. Staking share arithmetic (Staking/StakeModel.v: validator tokens / shares / status, SharesFromTokens / TokensFromShares with LegacyDec truncation, first delegation to an empty validator, last share takes all tokens, max-entries rule, operator jailing, removal of an unbonded validator): theorems that the owner\'s precompile route (decoding, identity rule, message, Delegate event computed after the message, mirror + final commit) equals the native route in success and resulting numbers for all states and amounts, delegation to an emptied validator succeeds with shares = tokens, round-trip bounds; driver stakestates compares both routes on unusual states by a full store diff and the model\'s numbers with both routes',
-    'level_note': 'partial: interpreter and SDK keepers are modelled not verified; redelegate / cancelUnbondingDelegation / distribution methods in unusual states are covered by the differential store comparison only (no model of their arithmetic); the read-only methods (staking delegation / unbondingDelegation / validator, bank balances / totalSupply / supplyOf) are compared with keeper state by the evmquery driver (no model: they are projections); ICS-20: transfer of the bond denomination only',
+                    'Staking/StakeModel.v does not model the 315-bit LegacyDec overflow panic (compared on amounts up to 2^256-1)',
+                    'stakequery: the questions are Ethereum calls from an EOA (ApplyMessage without commit); the native side is the '
+                    'application\'s own gRPC query router on the same context; a list method called with an offset > 0 is refused by the '
+                    'precompile on the pinned tree (the ABI-decoded page key is empty but not nil, the SDK refuses key and offset together) '
+                    'while the native query answers: recorded (tag page:offset-refused-by-precompile), not demanded'],
+    'level_text': 'Coq theorem: for every method, argument and state the Cosmos-side effect and success/failure of an owner call equal the native message (before the final StateDB commit); refutation witness K6 for the whole-transaction statement. Every run executes, on forks of the same state, the precompile transaction and the native message through the real message router and diffs balances, delegations, unbondings, rewards, withdraw addresses, grants; the model is compared with the implementation on the same cases. Staking share arithmetic (Staking/StakeModel.v: validator tokens / shares / status, SharesFromTokens / TokensFromShares with LegacyDec truncation, first delegation to an empty validator, last share takes all tokens, max-entries rule, operator jailing, removal of an unbonded validator): theorems that the owner\'s precompile route (decoding, identity rule, message, Delegate event computed after the message, mirror + final commit) equals the native route in success and resulting numbers for all states and amounts, delegation to an emptied validator succeeds with shares = tokens, round-trip bounds; driver stakestates compares both routes on unusual states by a full store diff and the model\'s numbers with both routes.  Read-only method delegation: Staking/StakeModel.v states the truncation rule (balance = TruncateInt(TokensFromShares(shares))) for the native query and the precompile; theorems: the precompile reports exactly the native shares and balance for every validator record and delegation (any tokens / shares, i.e. after any slashes), (0,0) exactly when the query says not-found, balance between floor(shares*tokens/total) and that + 1 and equal to the floor unless the quotient is within 10^-18/2 of the next integer, integer part of the shares at rate one, and a refutation of the rounded (RoundInt) variant with a two-delegator 5 % slash witness; driver stakequery compares all six read-only staking methods with the native gRPC queries field by field over slashed / in-flight states and the delegation answers of both routes with the model (list squery)',
+    'level_note': 'partial: interpreter and SDK keepers are modelled not verified; redelegate / cancelUnbondingDelegation / distribution methods in unusual states are covered by the differential store comparison only (no model of their arithmetic); the read-only staking methods are compared with the native gRPC queries by the stakequery driver (model: delegation only; unbondingDelegation / validator(s) / redelegation(s) are projections, compared field by field without a model) and, on one healthy validator, with keeper state by the evmquery driver together with bank balances / totalSupply / supplyOf; ICS-20: transfer of the bond denomination only',
     'technique': 'Coq proof over a StateDB/precompile model + differential correspondence on generated EVM call trees',
 }
